@@ -95,6 +95,9 @@ BOUNDED_SEARCH = {
              'fraction of shortest paths through the node computed by brute force, tolerance 1e-9')],
     'C06': [('C06.closeness_equals_the_formula_over_minimal_distances_bounded', 'closeness_oracle', 'src/algorithms/centrality/closeness.rs',
              'closeness_centrality (both wf_improved settings) against the documented formula over Floyd-Warshall distances TO each node')],
+    'C18': [('C18.result_equals_the_documented_iteration_bounded', 'eigenvector_oracle', 'src/algorithms/centrality/eigenvector.rs',
+             'eigenvector_centrality for (max_iter, tolerance) in {(0,1e-6),(1,1e-6),(1,0.3),(2,0.3),(3,1e-2),(100,1e-6),(100,1e-12)} against the documented power iteration replayed over the '
+             'added edges: same verdict (Ok / PowerIterationFailedConvergence; WrongMethod on multi-edge graphs), one entry per node, no negative entry, values within 1e-9, Euclidean norm 1 within 1e-9')],
     'C15': [('C15.rebuilds_do_not_fail_and_match_their_definitions_bounded', 'derived_oracle', 'src/graph/convert.rs',
              'reverse (and reverse twice), get_subgraph for every subset of the names, set_all_edge_weights, to_single_edges against edge multisets computed from the added edge list')],
     'C16': [('C16.generators_match_their_definitions_bounded', 'generators_oracle', 'src/generators/classic.rs',
